@@ -935,3 +935,87 @@ def exact_type_identity(ctx, res):
                        f"`{p.outcome[1][:60]}` on a path that did not test "
                        f"(and fail) the exact type of `{par}`", _plines(p))
     res.floor(3)
+
+
+# ---------------------------------------------------------------------------
+# C19.undo-on-failure: a setattr handler that has already changed the object's
+# dictionary entry for the name (delete or store) and then fails because a
+# value-producing callback (default method / factory through the default
+# materialiser, or a getter slot) returned NULL must put the previous entry
+# back before reporting the failure: "the operation has no effect at all".
+
+@rule("C19.undo-on-failure", ["C19"],
+      "when a setattr handler fails because a value-producing callback "
+      "returned NULL after the instance dictionary entry was already deleted "
+      "or replaced, the previous entry is restored before the failure is "
+      "returned")
+def undo_on_failure(ctx, res):
+    facts = get_cfacts(ctx)
+    handlers = sorted({f for f in facts.table("setattr_handlers") if f})
+    getters = {f for f in facts.table("getattr_handlers") if f}
+    n = 0
+    for fname in handlers:
+        fn = facts.func(fname)
+        if not any(x.kind == "CallExpr" and "PyDict_DelItem" in facts.text(x)
+                   or x.kind == "CallExpr" and "PyDict_SetItem" in facts.text(x)
+                   for x in fn.walk()):
+            continue
+        paths, _f, _g = paths_of(ctx, fname)
+        bad = None
+        checked = 0
+        for p in paths:
+            if p.outcome[0] != "RETURN":
+                continue
+            tr = p.trace
+            calls = {it[3]: it[1] for it in tr if it[0] == "call"}
+            mut = None
+            for i, it in enumerate(tr):
+                if it[0] == "call" and it[1] in ("PyDict_DelItem",
+                                                 "PyDict_SetItem"):
+                    # succeeded?
+                    failed = any(a[0] == "atom" and a[1].startswith(
+                        f"({it[3]} < 0)") and a[2] for a in tr[i + 1:i + 3])
+                    if not failed and mut is None:
+                        mut = (i, it)
+            if mut is None:
+                continue
+            i0, m = mut
+            fail_at = None
+            for j in range(i0 + 1, len(tr)):
+                a = tr[j]
+                if a[0] == "atom" and a[2] is True \
+                        and a[1].startswith("(0 == ") and a[1].endswith(")"):
+                    x = a[1][len("(0 == "):-1]
+                    c = calls.get(x)
+                    if c is None:
+                        continue
+                    ptr = (facts.has_func(c) and "*" in (
+                        facts.func(c).type or "").split("(")[0]) \
+                        or c == "->getattr" or c in getters
+                    if ptr:
+                        fail_at = (j, x)
+                        break
+            if fail_at is None:
+                continue
+            checked += 1
+            dict_arg, key_arg = m[2][0], m[2][1]
+            restored = any(
+                it[0] == "call" and it[1] == "PyDict_SetItem"
+                and it[2][0] == dict_arg and it[2][1] == key_arg
+                for it in tr[fail_at[0] + 1:])
+            if not restored and bad is None:
+                bad = (m, fail_at[1], p)
+        if not checked:
+            continue
+        n += 1
+        res.instance(fname, facts.loc(fn), failing_paths=checked)
+        res.oblige(bad is None, f"{fname}:restore-after-"
+                   + (bad[0][1] if bad else "mutation"),
+                   f"{CREL}:{bad[2].lines[-1]}" if bad else "",
+                   f"{fname}: after `{bad[0][3][:60] if bad else ''}` "
+                   f"succeeded, `{bad[1][:60] if bad else ''}` returns NULL "
+                   f"(a default method, factory or getter raised) and the "
+                   f"function reports the failure without putting the "
+                   f"previous entry back: the operation raised *and* changed "
+                   f"the object", _plines(bad[2]) if bad else None)
+    res.floor(1)
